@@ -192,6 +192,60 @@ Proof.
   - apply N.div_le_lower_bound; [lia|]. fold y. lia.
 Qed.
 
+(* ------------------------------------------------------------------ widening (to keep the numbers small) *)
+
+Lemma NFR_mono (n1 d1 n2 d2 n1' d1' n2' d2' X : N) :
+  0 < d1 -> 0 < d2 -> 0 < d1' -> n1' * d1 <= n1 * d1' -> n2 * d2' <= n2' * d2 ->
+  NFR n1' d1' n2' d2' X -> NFR n1 d1 n2 d2 X.
+Proof.
+  intros H1 H2 H1' L1 L2 NF x y Hx A B. apply (NF x y Hx).
+  - assert (n1' * d1 * x <= n1 * d1' * x) by (apply N.mul_le_mono_r; exact L1).
+    assert (n1 * x * d1' < d1 * y * d1') by (apply N.mul_lt_mono_pos_r; lia).
+    apply (N.mul_lt_mono_pos_r d1); [lia|]. lia.
+  - assert (d2 * y * d2' <= n2 * x * d2') by (apply N.mul_le_mono_r; exact B).
+    assert (n2 * d2' * x <= n2' * d2 * x) by (apply N.mul_le_mono_r; exact L2).
+    apply (N.mul_le_mono_pos_r _ _ d2); [lia|]. lia.
+Qed.
+
+Lemma NFL_mono (n1 d1 n2 d2 n1' d1' n2' d2' X : N) :
+  0 < d1 -> 0 < d2 -> 0 < d2' -> n1' * d1 <= n1 * d1' -> n2 * d2' <= n2' * d2 ->
+  NFL n1' d1' n2' d2' X -> NFL n1 d1 n2 d2 X.
+Proof.
+  intros H1 H2 H2' L1 L2 NF x y Hx A B. apply (NF x y Hx).
+  - assert (n1' * d1 * x <= n1 * d1' * x) by (apply N.mul_le_mono_r; exact L1).
+    assert (n1 * x * d1' <= d1 * y * d1') by (apply N.mul_le_mono_r; lia).
+    apply (N.mul_le_mono_pos_r _ _ d1); [lia|]. lia.
+  - assert (d2 * y * d2' < n2 * x * d2') by (apply N.mul_lt_mono_pos_r; lia).
+    assert (n2 * d2' * x <= n2' * d2 * x) by (apply N.mul_le_mono_r; exact L2).
+    apply (N.mul_lt_mono_pos_r d2); [lia|]. lia.
+Qed.
+
+(* a fraction with a long denominator is replaced by a binary fraction with [wbits] bits just below / above *)
+Definition wbits : N := 160.
+Definition widen_lo (p : N * N) : N * N :=
+  if N.size (snd p) <=? wbits then p else (N.shiftl (fst p) wbits / snd p, N.shiftl 1 wbits).
+Definition widen_hi (p : N * N) : N * N :=
+  if N.size (snd p) <=? wbits then p else (N.shiftl (fst p) wbits / snd p + 1, N.shiftl 1 wbits).
+
+Lemma widen_lo_spec n d : 0 < d ->
+  0 < snd (widen_lo (n, d)) /\ fst (widen_lo (n, d)) * d <= n * snd (widen_lo (n, d)).
+Proof.
+  intro H. unfold widen_lo. cbn [fst snd]. destruct (N.size d <=? wbits); cbn [fst snd]; [lia|].
+  rewrite N.shiftl_1_l, N.shiftl_mul_pow2.
+  pose proof (N.pow_nonzero 2 wbits ltac:(lia)). split; [lia|].
+  rewrite (N.mul_comm _ d). apply N.mul_div_le. lia.
+Qed.
+
+Lemma widen_hi_spec n d : 0 < d ->
+  0 < snd (widen_hi (n, d)) /\ n * snd (widen_hi (n, d)) <= fst (widen_hi (n, d)) * d.
+Proof.
+  intro H. unfold widen_hi. cbn [fst snd]. destruct (N.size d <=? wbits); cbn [fst snd]; [lia|].
+  rewrite N.shiftl_1_l, N.shiftl_mul_pow2.
+  pose proof (N.pow_nonzero 2 wbits ltac:(lia)). split; [lia|].
+  pose proof (N.div_mod (n * 2 ^ wbits) d ltac:(lia)) as DM.
+  pose proof (N.mod_upper_bound (n * 2 ^ wbits) d ltac:(lia)) as MU. nia.
+Qed.
+
 Example nofrac_example :
   nofrac 20 true 314 100 315 100 6 = true /\ nofrac 20 true 314 100 315 100 7 = false.   (* 22/7 = 3.1428.. *)
 Proof. vm_compute. split; reflexivity. Qed.
